@@ -708,6 +708,17 @@ pub fn run(ctx: &mut Ctx) {
         replay(ctx, &case);
         return;
     }
+    // request defaults regenerated from the source (Gen/Agg.lean) = the harness' reading of them
+    for (size, seg, mdc) in [(None, None, None), (Some(3u32), None, None), (Some(5), Some(2u32), Some(0u64)), (Some(1), Some(40), Some(2))] {
+        let o = |x: Option<u64>| x.map(|v| v.to_string()).unwrap_or("_".into());
+        let m = ctx.model.ask(&format!("C14 defaults {} {} {}", o(size.map(|x| x as u64)), o(seg.map(|x| x as u64)), o(mdc)));
+        let (s, g, d, _) = terms_defaults(size, seg, mdc, &None);
+        let mine = format!("{s} {g} {d} {}", tantivy::aggregation::DEFAULT_BUCKET_LIMIT);
+        ctx.report.case(&format!("defaults|{size:?}|{seg:?}|{mdc:?}"), false);
+        if m != mine {
+            ctx.report.violation("model", "C14:request-defaults-differ", format!("lean (from Gen) {m} vs harness / DEFAULT_BUCKET_LIMIT {mine}"), json!({"kind": "defaults"}));
+        }
+    }
     let corpora = ctx.budget(60, 2000);
     let reqs_per = ctx.budget(7, 12);
     for ci in 0..corpora {
